@@ -430,6 +430,9 @@ def replay(rec):
         if len(e.levels) != len(L) or len(e.times) != len(T) or \
                 any(not tol(float(a), float(b)) for a, b in zip(list(e.levels) + list(e.times), L + T)):
             return f'{w}: levels {e.levels} times {e.times}, documented {L} {T}'
+        if w in ('pairs', 'xyc') and not tol(float(e.offset), float(min(xs))):
+            return f'{w}: control points {[pts[i] for i in order]} give offset {e.offset}; the envelope starts at the ' \
+                   f'earliest point, {min(xs)}'
         if w == 'xyc':
             cv = list(e.curves) if isinstance(e.curves, (list, tuple)) else [e.curves]
             if cv[:2] != ['sin', 'exp']:
